@@ -9,13 +9,13 @@ HTML_NAMES = ["div", "p", "span", "b", "i", "br", "hr", "img", "pre", "ul", "li"
               "input", "textarea", "select", "option"]
 ATTR_NAMES = ["k", "id", "n", "t"]
 TEXT_CHARS = list("abcxyz 012") + ["<", ">", "&", '"', "'", "\n", "\t", " ", "\r", "\u00e9", "\u20ac", "\u2028", "\u0085", "]", "]", ">"]
-SAFE_CHARS = list("abcdxyz019 ._")
+SAFE_CHARS = list("abcdxyz019 ._") + ["\t"]
 
 
 def hx(s):
     if not s:
         return "-"
-    b = s.encode("utf-16-le")
+    b = s.encode("utf-16-le", "surrogatepass")
     return "".join("%02x%02x" % (b[i + 1], b[i]) for i in range(0, len(b), 2))
 
 
